@@ -42,7 +42,8 @@ ANCHORS = [
 FLOORS = {'*': {
     'accepted:PO': 50, 'accepted:PK': 500, 'accepted:KO': 100, 'accepted:VA': 50, 'accepted:VK': 50,
     'refused:PO': 50, 'refused:PK': 500, 'refused:KO': 100, 'refused:VA': 20, 'refused:VK': 20,
-    'mode:none': 100, 'mode:name': 100, 'mode:positional': 50, 'mode:view': 100,
+    'mode:none': 100, 'mode:name': 100, 'mode:positional': 50, 'mode:view': 100, 'mode:view-classmethod': 100,
+    'mode:view-staticmethod': 100,
     'style:def': 300, 'style:async': 300, 'style:async-plain': 300, 'client-names-context': 100,
     'context-identity-checked': 500, 'dual-registration-calls': 500,
 }}
@@ -96,12 +97,12 @@ def name_params(sig, ctx_at):
     return out
 
 
-def render(params, with_ctx, is_async, as_method, fname):
+def render(params, with_ctx, is_async, as_method, fname, first='self'):
     parts, star = [], False
     plist = [p for p in params if with_ctx or not p[3]]
     n_po = sum(1 for p in plist if p[1] == 'PO')
-    if as_method:
-        parts.append('self')
+    if as_method and first:
+        parts.append(first)
     po_seen = 0
     for name, kind, dflt, is_ctx in plist:
         if kind == 'PO':
@@ -138,8 +139,11 @@ def build_program(sig, ctx_at, mode, style):
     if mode == 'name':
         # the same function object is also registered without a context designation: there `ctx` is an ordinary parameter
         src_g += '\n\n' + render(params, True, False, False, 'g2')
-    if mode == 'view':
-        meth = render(params, False, is_async, True, 'f')
+    if mode.startswith('view'):
+        deco, first = {'view': ('', 'self'), 'view-classmethod': ('@classmethod', 'cls'), 'view-staticmethod': ('@staticmethod', '')}[mode]
+        meth = render(params, False, is_async, True, 'f', first)
+        if deco:
+            meth = deco + '\n' + meth
         src_f = ('class View(ViewMixin):\n    def __init__(self, context=None):\n        super().__init__()\n'
                  '        VIEWS.append((self, context))\n' + '\n'.join('    ' + l for l in meth.splitlines()))
     else:
@@ -171,7 +175,7 @@ def run_program(ctx, sig, ctx_at, mode, style):
     is_async = style in ('async', 'async-plain')
     disp = (pjrpc.server.AsyncDispatcher if is_async else pjrpc.server.Dispatcher)()
     try:
-        if mode == 'view':
+        if mode.startswith('view'):
             reg = pjrpc.server.MethodRegistry()
             reg.view(ns['View'], context='anything')
             disp.add_methods(reg)
@@ -245,7 +249,7 @@ def judge_call(ctx, env, method_name, g, case, designated):
                 ctx.hit('context-identity-checked')
                 if r[1]['ctx'] is not CTX:
                     bad_ctx = True
-    if mode == 'view':
+    if mode.startswith('view'):
         for v, c in ns['VIEWS']:
             ctx.hit('context-identity-checked')
             if c is not CTX:
@@ -333,7 +337,7 @@ def gen(ctx):
     for sig in sigs:
         n = len(sig)
         # (context position, mode)
-        variants = [(-1, 'none'), (-1, 'view')]
+        variants = [(-1, 'none'), (-1, 'view'), (-1, 'view-classmethod'), (-1, 'view-staticmethod')]
         for at in range(n):
             kind = sig[at][0]
             if kind in ('PK', 'KO'):
